@@ -6,7 +6,8 @@ Property theorems only (helpers: `Proofs/Lemmas/Dynamics.lean`; model: `Pose/Mod
 
 * §1 clock: every completed call advances the time by exactly one; `reset` / `systime =` /
   `LTV.set_refpoint(t)` set it; after *any* interleaving the clock is the last set value plus the
-  number of completed calls since (`clock_history`, `clock_no_set`, `clock_history_complete`).
+  number of completed calls since (`clock_history`, `clock_no_set`, `clock_history_complete`); clocks of several
+  systems are independent state machines, assignments between them copy values (`multi_clock_independent`).
 * §2 `bmv`, `bvv`, `bvmv` are `Matrix.mulVec`, `Matrix.vecMulVec`, `l ⬝ᵥ M *ᵥ r`.
 * §3 LTI / LTV: a forward at clock `t` returns `A_t x + B_t u + c1_t`, `C_t x + D_t u + c2_t`
   (`lti_eq`, `ltv_eq_periodic`, `ltv_eq_plain`, `ltv_plain_raises`), roll-outs of every length use
@@ -106,6 +107,52 @@ theorem traceClock_spec (k : Kind) (evs : List Ev) : ∀ (c : Int) (j : Nat), j 
 
 example : traceClock .ltv 0 [.call, .call, .callRaise, .reset ⟨5, 1⟩, .call, .assign ⟨-11, 4⟩, .call,
     .refpoint (some ⟨7, 1⟩), .refpoint none, .call] = [1, 2, 2, 5, 6, -2, -1, 7, 7, 8] := by decide
+
+/-! ### several systems: every clock is its own state machine -/
+
+/-- an event on system `j ≠ i` does not touch the clock of system `i` -/
+theorem multi_step_other (ks : List Kind) (cs : List Int) (j : Nat) (e : MEv) (i : Nat) (h : j ≠ i) :
+    (stepMulti ks cs (j, e)).getD i 0 = cs.getD i 0 := by
+  simp [stepMulti, List.getD_eq_getElem?_getD, h]
+
+/-- **Clocks of distinct systems are independent.** For any list of events tagged with a system id — including
+`b.systime = a.systime`, `b.reset(a.systime)`, `ltv.set_refpoint(t=a.systime)`, which copy the *value* the other
+clock has at that moment — the clock of system `i` is the single-system clock machine run on `i`'s own events
+(so `clock_history` holds per system: assigning from another system or from a shared tensor shares nothing). -/
+theorem multi_clock_independent (ks : List Kind) (evs : List (Nat × MEv)) : ∀ (cs : List Int) (i : Nat),
+    i < cs.length →
+    (runMulti ks cs evs).getD i 0
+      = runClock (ks.getD i .lti) (cs.getD i 0) (projEv i (resolveMulti ks cs evs)) := by
+  induction evs with
+  | nil => intro cs i _; simp [runMulti, resolveMulti, projEv, runClock]
+  | cons te r ih =>
+    intro cs i hi
+    have hlen : i < (stepMulti ks cs te).length := by simpa [stepMulti] using hi
+    have h1 : runMulti ks cs (te :: r) = runMulti ks (stepMulti ks cs te) r := by simp [runMulti]
+    rw [h1, ih (stepMulti ks cs te) i hlen]
+    by_cases h : te.1 = i
+    · have e1 : (stepMulti ks cs te).getD i 0 = stepClock (ks.getD i .lti) (cs.getD i 0) (te.2.toEv cs) := by
+        subst h
+        simp [stepMulti, List.getD_eq_getElem?_getD, hi]
+      simp only [resolveMulti, projEv, List.filterMap_cons, h, if_true, e1]
+      simp [runClock]
+    · have e1 : (stepMulti ks cs te).getD i 0 = cs.getD i 0 := multi_step_other ks cs te.1 te.2 i h
+      simp only [resolveMulti, projEv, List.filterMap_cons, h, if_false, e1]
+
+/-- the number of systems never changes -/
+theorem multi_length (ks : List Kind) (evs : List (Nat × MEv)) : ∀ cs : List Int,
+    (runMulti ks cs evs).length = cs.length := by
+  induction evs with
+  | nil => intro cs; simp [runMulti]
+  | cons te r ih =>
+    intro cs
+    have h1 : runMulti ks cs (te :: r) = runMulti ks (stepMulti ks cs te) r := by simp [runMulti]
+    rw [h1, ih]; simp [stepMulti]
+
+example : traceMulti [.lti, .ltv, .nls] [0, 0, 0]
+    [(0, .own (.assign ⟨3, 1⟩)), (1, .assignFrom 0), (0, .own .call), (0, .own (.reset ⟨0, 1⟩)), (1, .own .call),
+     (2, .refFrom 1), (1, .refFrom 0), (1, .resetFrom 2)]
+    = [[3, 0, 0], [3, 3, 0], [4, 3, 0], [0, 3, 0], [0, 4, 0], [0, 4, 0], [0, 0, 0], [0, 0, 0]] := by decide
 
 /-! ## 2. `bmv`, `bvv`, `bvmv` -/
 
